@@ -11,13 +11,13 @@ Definition dec_call (v : list int) : option lcall :=
            else if N.eqb n 6 then Some LHealth else if N.eqb n 7 then Some LSendBestEffort else if N.eqb n 8 then Some LSendReliable
            else if N.eqb n 9 then Some LPing else if N.eqb n 10 then Some LJoin else if N.eqb n 11 then Some LAdvance
            else if N.eqb n 12 then Some LReap else if N.eqb n 20 then Some LShutdown else if N.eqb n 21 then Some LLeave
-           else if N.eqb n 22 then Some LUpdateNode else if N.eqb n 23 then Some LLeave else if N.eqb n 24 then Some LShutdown else if N.eqb n 25 then Some LUpdateNode else None
+           else if N.eqb n 22 then Some LUpdateNode else if N.eqb n 23 then Some LLeave else if N.eqb n 24 then Some LShutdown else if N.eqb n 25 then Some LUpdateNode else if N.eqb n 26 then Some LLeave else None
   | _ => None
   end.
 Fixpoint dec_list {A B} (f : A -> option B) (l : list A) : option (list B) :=
   match l with [] => Some [] | x :: l' => match f x, dec_list f l' with Some y, Some ys => Some (y :: ys) | _, _ => None end end.
 
-(* obs per call: [panicked; overran_its_timeout; used_network_after_shutdown] ; last obs: [goroutines_left; sends_after_shutdown; dials_after_shutdown] *)
+(* obs per call: [panicked; overran_its_timeout; used_network_after_shutdown] ; last obs: [goroutines_left; sends_after_shutdown; dials_after_shutdown; transport_shutdowns_beyond_the_first] *)
 Fixpoint monitor_from (i : N) (cs : list lcall) (obs : list (list int)) : verdict :=
   match cs, obs with
   | _ :: cs', [p; slow; net] :: obs' =>
@@ -38,6 +38,10 @@ Definition check_case (cs : list int * (list (list int) * list (list int))) : ve
       let v := monitor_from 0 calls obs in
       if negb (N.eqb (vcode v) 0) then v
       else match nth (length calls) obs [] with
+           | [gl; sa; da; sc] => if negb (Uint63.eqb gl 0) then mkV 503 0
+                             else if negb (Uint63.eqb sa 0) || negb (Uint63.eqb da 0) then mkV 502 0
+                             else if negb (Uint63.eqb sc 0) then mkV 504 0
+                             else compare_from 0 (snd (lrun true l0 calls)) obs
            | [gl; sa; da] => if negb (Uint63.eqb gl 0) then mkV 503 0
                              else if negb (Uint63.eqb sa 0) || negb (Uint63.eqb da 0) then mkV 502 0
                              else compare_from 0 (snd (lrun true l0 calls)) obs
